@@ -178,10 +178,16 @@ class FGen(seqgen.Gen):
         prev = getattr(self, '_rfs', [])
         if prev and r.random() < 0.3:
             e = copy.deepcopy(r.choice(prev))
-            if r.random() < 0.5:
+            u = r.random()
+            if u < 0.35:
                 e.freq_offset = self.twin_value(e.freq_offset)
-            else:
+            elif u < 0.65:
                 e.phase_offset = self.twin_value(e.phase_offset)
+            else:
+                # the same pulse under another `use` (the 1.4 format does not store it: one [RF] line either way)
+                e.use = r.choice([x for x in ('excitation', 'refocusing', 'inversion', 'saturation', 'preparation')
+                                  if x != getattr(e, 'use', None)])
+                self.n_use_pairs = getattr(self, 'n_use_pairs', 0) + 1
             self.n_value_twins = getattr(self, 'n_value_twins', 0) + 1
             return [e]
         evs = super().rf()
@@ -282,7 +288,7 @@ class FGen(seqgen.Gen):
     # ---- blocks ----
     def block(self, final=False):
         carry = [ch for ch in 'xyz' if self.last[ch] != 0]
-        if carry or ((not final) and self.rng.random() < 0.3):
+        if self.use['arb'] and (carry or ((not final) and self.rng.random() < 0.3)):
             evs = self.chain_block(final)
             if evs is not None:
                 return evs
@@ -300,7 +306,7 @@ class FGen(seqgen.Gen):
         for ch in 'xyz':
             if ch in taken or r.random() > (0.4 if has_rf else 0.75):
                 continue
-            kind = r.choice(['trap', 'ext', 'arb', 'ext', 'arb'])
+            kind = r.choice(['trap', 'ext', 'arb', 'ext', 'arb']) if self.use['arb'] else 'trap'
             g = self.trap(ch) if kind == 'trap' else self.ext0(ch) if kind == 'ext' else self.arb0(ch)
             evs.append(g if g is not None else self.trap(ch))
         if self.use['adc'] and not has_rf and r.random() < 0.45:
@@ -481,6 +487,7 @@ def random_sequence(rng, system=None, n_blocks=None, use_block_cache=True, histo
     seq._gen_reused = getattr(g, 'n_reused', 0)
     seq._gen_twins = getattr(g, 'n_twins', 0)
     seq._gen_value_twins = getattr(g, 'n_value_twins', 0)
+    seq._gen_use_pairs = getattr(g, 'n_use_pairs', 0)
     return seq, stored, system
 
 
